@@ -70,6 +70,12 @@ Proof. exact check_C07_sound. Qed.
 Theorem C07_exec_reachable : forall ps acts, reachable (exec_ps ps acts).
 Proof. exact exec_reachable. Qed.
 
+(* repeated / late drains are harmless for the lifecycle status too: in every reachable state whose log
+   contains the terminal event, the status is Stopped (the model's drain raises the status to Draining only
+   from below Stopping - a drain on an exited actor is a no-op including the status) *)
+Theorem C07_status_sound : forall s, reachable s -> check_status (log s) (status s) = true.
+Proof. exact check_status_sound. Qed.
+
 (* ---- statement pins ---- *)
 Check (C07_marker_unique : forall s, reachable s -> markers (hist s) <= 1).
 Check (C07_idempotent : forall s, reachable s -> In Marker (hist s) ->
@@ -115,3 +121,4 @@ Print Assumptions C07_drained_once.
 Print Assumptions C07_not_idle_forever.
 Print Assumptions C07_oracle_sound.
 Print Assumptions C07_exec_reachable.
+Print Assumptions C07_status_sound.
